@@ -52,3 +52,7 @@ Definition check_crops (tol : Q) (table : list (Q * Q)) (c : crop_in) (g : gh_in
   if negb (Bool.eqb (crops_ok pw c g) accepted) then (if accepted then 90%nat else 91%nat)
   else if negb accepted then 0%nat
   else first_bad tol (obs c g pw).
+
+(* a series times a scalar: used to tie fat / protein series, which the model proves to be a scalar multiple of
+   the kcal series (Proofs/Series.v outdoor_nutrient_nth, greenhouse_nutrient_nth), without re-evaluating it *)
+Definition scaled (k : Q) (l : list Q) : list Q := map (Qmult k) l.
